@@ -109,3 +109,11 @@ def absr(x):
 @spec
 def opt_min(a, b):
     return ite(is_none(a), b, ite(is_none(b), a, ite(some(a) <= some(b), a, b)))
+
+
+# ---------------------------------------------------------------- C13: planner / dialogue / sanitiser
+
+@spec
+def ntokens(s):
+    """number of whitespace separated tokens of a string (len(s.split()))"""
+    return len(s.split())
